@@ -46,8 +46,31 @@ def _port_info(rest, typedef_width):
   dims = [_range_size(r) for r in re.findall(r'\[[^\]]*\]', unpacked)]
   return name, w, dims
 
+def preprocess(text):
+  """resolve `ifndef X / `define X / `endif the way a Verilog preprocessor does (a guarded second copy is dropped);
+  dropped lines become empty so that line numbers stay"""
+  defined, out, stack = set(), [], []
+  for line in text.split('\n'):
+    t = line.strip()
+    if t.startswith('`ifndef'):
+      stack.append(t.split()[1] not in defined if len(t.split()) > 1 else True); out.append('')
+    elif t.startswith('`ifdef'):
+      stack.append(t.split()[1] in defined if len(t.split()) > 1 else True); out.append('')
+    elif t.startswith('`else'):
+      if stack: stack[-1] = not stack[-1]
+      out.append('')
+    elif t.startswith('`endif'):
+      if stack: stack.pop()
+      out.append('')
+    elif t.startswith('`define'):
+      if all(stack) and len(t.split()) > 1: defined.add(t.split()[1])
+      out.append('')
+    else:
+      out.append(line if all(stack) else '')
+  return '\n'.join(out)
+
 def scan(text):
-  lines = text.split('\n')
+  lines = preprocess(text).split('\n')
   typedefs, modules, unknown = [], [], []
   typedef_width = {}
   i, n = 0, len(lines)
@@ -85,6 +108,15 @@ def scan(text):
           while i < n and not strip_comment(lines[i]).strip(): i += 1
           if strip_comment(lines[i]).strip() == ';':       # module without ports
             i += 1; continue
+          if strip_comment(lines[i]).strip().startswith('#('):          # parameter list `#( parameter p = 1 )(`
+            while i < n and not re.match(r'^\)\s*\($', strip_comment(lines[i]).strip()):
+              if strip_comment(lines[i]).strip() == ')':                  # `)` and `(` on separate lines
+                i += 1
+                while i < n and not strip_comment(lines[i]).strip(): i += 1
+                break
+              i += 1
+            if i >= n: raise ScanError(f'parameter list of module {name} not understood')
+            lines[i] = '('
           if strip_comment(lines[i]).strip() != '(':
             raise ScanError(f'expected "(" after module {name} at line {i+1}: {lines[i]!r}')
           i += 1
